@@ -7,7 +7,8 @@ Exhaustive product  mesh alphabet x part, where the parts are
               transpositions) of the exact points i/n  ->  all three calls
   variants  : coordinates +1e-9 / -1e-9 / + one integer vector / + a different integer vector per point, on the
               identity and the reversed list  ->  all three calls
-  defects   : (coordinates in [0,1)) one point removed / one point duplicated (copy placed next to the original, at
+  defects   : (coordinates in [0,1)) one point removed / along one axis all points removed whose coordinate is in
+              lowest terms / one point duplicated (copy placed next to the original, at
               the end, at the beginning) / one point replaced by an off-mesh point / an off-mesh point added /
               a finer mesh (2x, 3x) given together with the coarse `grid`  ->  selection calls
 Reference: the integer coordinates of every list entry are known by construction, so the expected dimensions, the
@@ -323,6 +324,30 @@ def run_defects(case, J):
                 entry.insert(pos, None)
                 J.select(k, entry, f"mesh {mesh} plus the off-mesh point {q.tolist()} ({oname}) inserted at {pos}", sfx=":added")
             n += 3
+    # --- several points removed: along one axis, every point whose coordinate i/n is in lowest terms (gcd(i,n)=1), so
+    #     that no remaining coordinate carries the full denominator (e.g. {0, 1/3, 1/2, 2/3} of a 6-mesh)
+    for ax in range(3):
+        if mesh[ax] == 1:
+            continue
+        keep = np.array([gcd(int(r[ax]), mesh[ax]) != 1 for r in pts])
+        ints = pts[keep]
+        k = ints / mp
+        what = f"mesh {mesh} without the points whose coordinate {ax} is i/{mesh[ax]} in lowest terms"
+        J.select(k, [tuple(r) for r in ints], what, expect="reject", sfx=":removed")
+        g, complete = ref_detect(ints, mesh)
+        st, res = call(J.grid_from_kpoints, k.copy())
+        J.calls += 1
+        if complete:
+            if st == "exc" or as_tuple(res) != g:
+                raise Fail("grid_from_kpoints:detect:wrong_dimensions:removed",
+                           f"{what}: the remaining points are the complete mesh {g}, got {res!r}")
+        elif st == "ok":
+            raise Fail("grid_from_kpoints:detect:incomplete_mesh_accepted",
+                       f"{what}: grid_from_kpoints(kpoints) returned {res}; the remaining points {short(k)} are not a "
+                       f"complete mesh (their common grid is {g})")
+        elif not isinstance(res, ValueError):
+            raise Fail("grid_from_kpoints:detect:incomplete_mesh_wrong_exception", f"{what}: {type(res).__name__}: {str(res)[:150]}")
+        n += 1
     # --- a finer mesh given with the coarse grid: exactly the coarse points are selected
     for f in (2, 3):
         fine = tuple(f * m for m in mesh)
